@@ -82,7 +82,7 @@ def main(argv=None):
         out = os.path.join(tmp, f"shard{i}.json")
         env = dict(os.environ)
         env["NUMBA_CACHE_DIR"] = os.path.join(tmp, f"nbcache{i}")
-        env.setdefault("NUMBA_NUM_THREADS", str(max(1, (os.cpu_count() or 1) // nshards)))
+        env["NUMBA_NUM_THREADS"] = str(max(1, min(int(env.get("NUMBA_NUM_THREADS", "4")), (os.cpu_count() or 1) // nshards)))
         p = subprocess.Popen([sys.executable, "-m", "hmon.run", prop, tier, "--shard", f"{i}/{nshards}", "--out", out],
                              env=env, cwd=tmp)
         procs.append((p, out))
